@@ -864,7 +864,7 @@ func ruleNextSticky(w *World, r *RuleResult) {
 			}
 		}
 		if !m.isLexer && !inspects {
-			bt := w.Method("bufTokenReader", "NextToken")
+			bt := Asm(w).BufNext
 			good := false
 			if bt != nil {
 				ps, _ := w.Paths(bt)
